@@ -131,6 +131,9 @@ def real_sel(costs):
                     problems.append(f"special_agents({nb},{nw},{d}) differs from best_agents/worst_agents")
             except ValueError:
                 out.append([999])
+            except Exception as ex_:
+                out += [[997], [997]]
+                problems.append(f"special_agents({nb},{nw},{d}) raises {type(ex_).__name__}: {str(ex_)[:80]}")
             guard("special_agents")
         try:
             H.special_agents(pop, None, None, d); out.append([998])
